@@ -126,7 +126,8 @@ class Run:
         except subprocess.TimeoutExpired:
             raise Infra("driver timed out: %s" % " ".join(args))
         if p.returncode not in ok_codes or not os.path.exists(outp):
-            raise Infra("driver failed (rc=%d): %s\n%s" % (p.returncode, " ".join(args), (p.stdout + p.stderr)[-4000:]))
+            o = p.stdout + p.stderr     # a Go runtime crash names its cause in the FIRST lines, a driver error in the last
+            raise Infra("driver failed (rc=%d): %s\n%s" % (p.returncode, " ".join(args), o if len(o) < 5000 else o[:1200] + "\n[...]\n" + o[-3500:]))
         res = json.load(open(outp))
         res["_wall"] = time.time() - t
         res["_stderr"] = p.stderr[-2000:]
